@@ -2118,9 +2118,12 @@ theorem loopS_inv {G : Nat → State → Prop} (hG : Graded G) (D : Nat) (ctx : 
   induction hl with
   | done depth st => exact fun _ h => h
   | finished n depth st _ => exact fun _ h => h
-  | step n depth st st1 st2 _ hs _ ih =>
+  | stopped n depth st p _ _ =>
+    exact fun _ h => (show IterInv _ _ root { st with polls := p } from ⟨h.tt, h.best, h.events⟩).boundaryPoll ctx depth
+  | step n depth st st1 st2 p _ _ hs _ ih =>
     intro hd h
-    exact ih (by omega) (stepS_inv hG D ctx hcf root hroot rootHash _ depth (by omega) st st1 h hs)
+    exact ih (by omega) (stepS_inv hG D ctx hcf root hroot rootHash _ depth (by omega) _ st1
+      ((show IterInv _ _ root { st with polls := p } from ⟨h.tt, h.best, h.events⟩).boundaryPoll ctx depth) hs)
 
 /-! ### C06 -/
 
@@ -2236,9 +2239,14 @@ theorem loopS_sound {K : Keys} {D : State → Prop} {L nT nB : Nat} (g : Geo L n
   induction hl with
   | done depth st => exact fun h => ⟨h, [], (List.append_nil _).symm, fun _ h => nomatch h⟩
   | finished n depth st _ => exact fun h => ⟨h, [], (List.append_nil _).symm, fun _ h => nomatch h⟩
-  | step n depth st st1 st2 _ hs _ ih =>
+  | stopped n depth st p _ _ =>
+    exact fun h => ⟨(show IterOK K D L nT nB root { st with polls := p } from h).boundaryPoll ctx depth, [],
+      by rw [boundaryPoll_events, List.append_nil], fun _ h => nomatch h⟩
+  | step n depth st st1 st2 p _ _ hs _ ih =>
     intro h
-    obtain ⟨h1, new1, e1, c1⟩ := stepS_sound g dom ctx hK root hD rootHash hrh _ depth st st1 h hs
+    obtain ⟨h1, new1, e1, c1⟩ := stepS_sound g dom ctx hK root hD rootHash hrh _ depth _ st1
+      ((show IterOK K D L nT nB root { st with polls := p } from h).boundaryPoll ctx depth) hs
+    rw [boundaryPoll_events] at e1
     obtain ⟨h2, new2, e2, c2⟩ := ih h1
     refine ⟨h2, new1 ++ new2, by rw [e2, e1, List.append_assoc], fun ev hev => ?_⟩
     rcases List.mem_append.1 hev with h' | h'
@@ -2300,8 +2308,13 @@ theorem loopS_safe (ctx : Ctx) (root : State) (nT nB : Nat) (hT : 0 < nT) (hB : 
   induction hl with
   | done depth st => exact fun h => h
   | finished n depth st _ => exact fun h => h
-  | step n depth st st1 st2 _ hs _ ih =>
-    exact fun h => ih (stepS_safe ctx root nT nB hT hB hhist hg _ depth st st1 h hs)
+  | stopped n depth st p _ _ =>
+    intro h
+    unfold SafeSE; rw [boundaryPoll_tt, boundaryPoll_bestMv, boundaryPoll_panic]; exact h
+  | step n depth st st1 st2 p _ _ hs _ ih =>
+    intro h
+    refine ih (stepS_safe ctx root nT nB hT hB hhist hg _ depth _ st1 ?_ hs)
+    unfold SafeSE; rw [boundaryPoll_tt, boundaryPoll_bestMv, boundaryPoll_panic]; exact h
 
 end safeS
 
@@ -3476,11 +3489,16 @@ theorem iterLoop_loopS (ctx : Ctx) (root : State) (rootHash : UInt64) (workersOf
   | zero => intro depth st; exact LoopS.done depth st
   | succ n ih =>
     intro depth st
-    rw [iterLoop]
+    rw [iterLoop_succ]
     by_cases hf : st.finished = true
     · rw [if_pos hf]; exact LoopS.finished n depth st hf
     · rw [if_neg hf]
-      exact LoopS.step n depth st _ _ (by simpa using hf) (iterStep_stepS ctx root rootHash _ depth st) (ih _ _)
+      -- the sequential model reads the flag at the boundary at poll number `st.polls`
+      by_cases hb : (boundaryPoll ctx depth st).finished = true
+      · rw [if_pos hb]; exact LoopS.stopped n depth st st.polls (by simpa using hf) hb
+      · rw [if_neg hb]
+        exact LoopS.step n depth st _ _ st.polls (by simpa using hf) (by simpa using hb)
+          (iterStep_stepS ctx root rootHash _ depth (boundaryPoll ctx depth st)) (ih _ _)
 
 /-- **the sequential model's search is one of the outcomes of the search under arbitrary schedules** -/
 theorem iterate_searchS (root : State) (rng0 : Rng.ChaCha8) (maxDepth : Option Nat) (art : Artifact)
